@@ -168,7 +168,7 @@ def _run(ctx, cooler, split, B, pool, pool4, maps, thorough, rng, tmp):
 
     # ------------------------------------------------------------ cases
     cases = [dict(c) for c in CORPUS]
-    ncool = 60 if thorough else 16
+    ncool = 60 if thorough else 13
     while len(cases) < ncool + len(CORPUS):
         per = G.random_per(rng)
         px = G.random_pixels(rng, per)
